@@ -6,6 +6,7 @@ import (
 	"fmt"
 	"go/ast"
 	"go/constant"
+	"go/token"
 	"go/types"
 	"strings"
 )
@@ -37,6 +38,28 @@ func (e *Ev) evCall(x *ast.CallExpr) Val {
 	if id, ok := unparen(x.Fun).(*ast.Ident); ok {
 		if b, ok := e.info.Uses[id].(*types.Builtin); ok {
 			return e.evBuiltin(x, b.Name())
+		}
+		// a call through a function-typed parameter: it must not be nil; its results are arbitrary
+		// values and it is assumed not to touch the modelled heap
+		if vo, ok := e.info.Uses[id].(*types.Var); ok {
+			if fv, ok := e.st.env[vo].(VFuncParam); ok {
+				e.safety("nilfunc", "nilfunc", x.Pos(), sNot(fv.Nil), "called function value is not nil")
+				for _, a := range x.Args {
+					if ue, ok := unparen(a).(*ast.UnaryExpr); ok && ue.Op == token.AND {
+						continue // the address of a local is only handed over
+					}
+					e.ev(a)
+				}
+				e.fx.trusted["calls through function-typed parameters return arbitrary values and do not touch the modelled heap (assumed)"] = true
+				sig := vo.Type().Underlying().(*types.Signature)
+				switch sig.Results().Len() {
+				case 0:
+					return VTuple{}
+				case 1:
+					return e.fx.fresh(sig.Results().At(0).Type(), "fnres")
+				}
+				return e.fx.fresh(sig.Results(), "fnres")
+			}
 		}
 	}
 	// method calls
